@@ -1,4 +1,5 @@
 import PyxisVerif.Props.C04
+import PyxisVerif.Props.Exec
 #print axioms PyxisVerif.C04.slots
 #print axioms PyxisVerif.C04.contradiction_rejected
 #print axioms PyxisVerif.C04.placeholder_shape
@@ -6,3 +7,11 @@ import PyxisVerif.Props.C04
 #print axioms PyxisVerif.C04.slot_offset
 #print axioms PyxisVerif.C04.wrapper_shape
 #print axioms PyxisVerif.C04.vfunc_body
+#print axioms PyxisVerif.Exec.vfunc_wrapper_calls_declared_slot
+#print axioms PyxisVerif.Exec.vfunc_wrapper_with_receiver
+#print axioms PyxisVerif.Exec.own_accessor_reads_pointer
+#print axioms PyxisVerif.Exec.inherited_accessor_reads_base_pointer
+#print axioms PyxisVerif.Exec.built_type_vfunc_wrappers
+#print axioms PyxisVerif.Exec.built_type_accessor
+#print axioms PyxisVerif.Exec.case_vfunc_wrappers
+#print axioms PyxisVerif.Exec.case_accessor
